@@ -100,8 +100,39 @@ def print_clause_layer(ctx, lk, conn, entries, options):
                 next(((a, b) for a, b in zip(key(reloaded), key(want)) if a != b), None)), payload={'statement': text})
 
 
+def print_filter_clause_layer(ctx, lk, conn, entries, options):
+    """PRINT FROM <filter> OPEN / CLOSE / CLEAR prints the directives of the SUMMARISED ledger that satisfy the filter: the
+    same transactions the SELECT with that FROM clause draws its postings from"""
+    txn_dates = sorted({e.date for e in entries if isinstance(e, data.Transaction)})
+    if len(txn_dates) < 3:
+        return
+    mid = txn_dates[len(txn_dates) // 2].isoformat()
+    for flt in ("has_account('Expenses:Food')", "has_account('Assets:Bank:Checking')", "narration ~ 'lunch|rent|Opening'", 'year >= 2020'):
+        for clauses in ('OPEN ON %s' % mid, 'CLOSE ON %s' % mid, 'CLEAR', 'OPEN ON %s CLOSE ON %s CLEAR' % (txn_dates[1].isoformat(), mid)):
+            frm = '%s %s' % (flt, clauses)
+            text = 'PRINT FROM ' + frm
+            try:
+                out = io.StringIO()
+                query_execute.execute_print(compiler.compile(conn, parser.parse(text)), out)
+                printed, _, _ = bparser.parse_string(out.getvalue())
+                rows = conn.execute('SELECT date, narration, count(*) AS n FROM %s GROUP BY id, date, narration' % frm).fetchall()
+            except Exception as exc:  # noqa: BLE001
+                ctx.record_violation('print-raises-%s' % type(exc).__name__, '%s: %r' % (text, exc))
+                continue
+            got = sorted((e.date, e.narration, len(e.postings)) for e in printed if isinstance(e, data.Transaction) and e.postings)
+            want = sorted((r[0], r[1], r[2]) for r in rows)
+            ctx.evaluations += 1
+            ctx.count('print-filter-clauses')
+            ctx.nontrivial_hashes.add(hash((lk, text)))
+            if got != want:
+                ctx.record_violation('print-filter-before-clauses', '%s: printed %d transactions, the SELECT sees %d; only printed %r, only selected %r' % (
+                    text, len(got), len(want), [x for x in got if x not in want][:2], [x for x in want if x not in got][:2]),
+                    payload={'statement': text})
+
+
 def print_layer(ctx, lk, conn, entries, options):
     print_clause_layer(ctx, lk, conn, entries, options)
+    print_filter_clause_layer(ctx, lk, conn, entries, options)
     for frm in [None, "year >= 2020", "type = 'transaction'", "type != 'transaction'", "flag = '!'", "year = 1800",
                 "has_account('Assets:Bank')", "narration ~ 'rent' OR payee ~ 'Cafe'"]:
         text = 'PRINT' + (' FROM ' + frm if frm else '')
